@@ -244,6 +244,7 @@ def norm_ty(s):
     """Normalise a type or callee path: no lifetimes, no module prefixes (snake_case segments
     followed by `::`), `Type::<..>::m` turbofish kept only when it has real arguments."""
     s = s.strip()
+    s = re.sub(r"\bfor<[^>]*>\s*", "", s)
     s = re.sub(r"'\w+\s*,?\s*", "", s)  # lifetimes
     s = re.sub(r"::<\s*>", "", s)
     s = re.sub(r"<\s*>", "", s)
@@ -254,7 +255,7 @@ def norm_ty(s):
         seg = m.group(1)
         return m.group(0) if seg in PRIMS else ""
 
-    s = re.sub(r"\b([a-z_][a-z0-9_]*)::(?=[A-Za-z_<{])", drop_mod, s)
+    s = re.sub(r"\b([a-z_][a-z0-9_]*)::(?=[A-Za-z_{]|<impl)", drop_mod, s)
     s = re.sub(r"&\s+", "&", s)
     return s.strip()
 
@@ -423,6 +424,8 @@ class Program:
         self.trait_impls = {}  # (SelfTy, Trait, method) -> [Func]
         self.free = {}  # short -> [Func]
         self.drops = {}  # SelfTy -> Func (Drop::drop)
+        self.closures = {}  # "{closure@file:line:col: line:col}" -> Func
+        self.promoted = {}  # "<function name>::promoted[k]" -> Func
         self._src_cache = {}
         for f in funcs:
             self._index(f)
@@ -437,8 +440,14 @@ class Program:
         return ls[line - 1] if 0 < line <= len(ls) else ""
 
     def _index(self, f):
+        if f.promoted:
+            self.promoted[f.name] = f
         if f.promoted or "{closure" in f.name or "{constant" in f.name:
             self.free.setdefault(f.name, []).append(f)
+            if "{closure" in f.name and f.params:
+                cm = re.search(r"\{closure@[^}]*\}", f.params[0][1])
+                if cm:
+                    self.closures[cm.group(0)] = f
             return
         if f.impl_at:
             file, line = f.impl_at
@@ -483,21 +492,22 @@ class Program:
         if m:
             sty, tr, meth = norm_ty(m.group(1)), norm_ty(m.group(2)), m.group(3)
             cands = self.trait_impls.get((base_ty(sty.lstrip("&").replace("mut ", "")), base_ty(tr), meth), [])
-            if len(cands) == 1:
+            X = self.types.expand_aliases
+            trq, styq = X(tr).replace(" ", ""), X(sty).replace(" ", "")
+
+            def same(f, with_self=True):
+                ft = X(norm_ty(f.trait or "")).replace(" ", "")
+                fs = X(norm_ty(f.self_ty or "")).replace(" ", "")
+                return ft == trq and (not with_self or fs == styq)
+            for f in cands:
+                if same(f):
+                    return f
+            for f in cands:
+                if same(f, False):
+                    return f
+            # traits without generic arguments (Clone, PartialEq, Drop, CelValueDyn ...): the base name decides
+            if len(cands) == 1 and "<" not in trq and "<" not in X(norm_ty(cands[0].trait or "")):
                 return cands[0]
-            if len(cands) > 1:
-                # disambiguate on the trait's generic arguments / self type spelling
-                tr, sty = self.types.expand_aliases(tr), self.types.expand_aliases(sty)
-                for f in cands:
-                    if self.types.expand_aliases(norm_ty(f.trait or "")).replace(" ", "") == tr.replace(" ", "") and self.types.expand_aliases(norm_ty(f.self_ty or "")).replace(" ", "") == sty.replace(" ", ""):
-                        return f
-                for f in cands:
-                    if norm_ty(f.trait or "").replace(" ", "") == tr.replace(" ", "") and norm_ty(f.self_ty or "").replace(" ", "") == sty.replace(" ", ""):
-                        return f
-                for f in cands:
-                    if norm_ty(f.trait or "").replace(" ", "") == tr.replace(" ", ""):
-                        return f
-                return None
             return None
         segs = path_segments(norm_ty(c))
         if not segs:
@@ -858,16 +868,31 @@ class Executor:
             return VOpaque("f64", self.new_vid(), "const " + t)
         if "::promoted[" in t or t.startswith("{alloc") or t.startswith("&"):
             return VOpaque("promoted", self.new_vid(), t[:40])
+        nt = norm_ty(t)
+        m = re.match(r"^(Option|Result|ControlFlow|Ordering)(?:::<(.*)>)?::(\w+)$", nt)
+        if m:
+            vs = BUILTIN_ENUMS[m.group(1)]
+            idx = [i for i, (n, fs) in enumerate(vs) if n == m.group(3)]
+            if idx and not vs[idx[0]][1]:
+                return VAdt(m.group(1) + (f"<{m.group(2)}>" if m.group(2) else ""), idx[0], {idx[0]: []}, self.new_vid())
         # unit-like ADT constant or fn item, e.g. `JmpWhen::False` / `CelContext::new`
         m = re.match(r"^(?:.*::)?(\w+)::(\w+)$", t)
         if m and (m.group(1) in self.P.types.enums):
             return VAdt(m.group(1), self.P.types.variant_index(m.group(1), m.group(2)), {}, self.new_vid())
+        cm = re.search(r"\{closure@[^}]*\}", t)
+        if cm:
+            return VStruct(cm.group(0), [], self.new_vid())
         if re.match(r"^ZeroSized|^\{", t):
             return VUnit()
         return VFn(t)
 
     def operand(self, frame, op):
         if op.kind == "const":
+            pm = re.search(r"::promoted\[(\d+)\]$", op.const)
+            if pm:
+                f = self.P.promoted.get(frame.func.name + f"::promoted[{pm.group(1)}]")
+                if f is not None:
+                    return self.run_function(f, [], 3)
             return self.const(op.const)
         root, path = self.resolve_place(frame, op.place)
         v = self.read(root, path)
@@ -997,7 +1022,13 @@ class Executor:
             items = [self.operand(frame, o) for o in rv.ops]
             return VSeq("?", len(items), items, self.new_vid())
         if k == "closure":
-            return VOpaque("closure", self.new_vid(), rv.text[:60])
+            m = re.match(r"^(\{closure@[^}]*\})(?: \{ (.*) \})?$", rv.text, re.S)
+            caps = []
+            if m and m.group(2):
+                for part in mp.split_top(m.group(2)):
+                    fm = re.match(r"^(\w+): (.*)$", part, re.S)
+                    caps.append(self.operand(frame, mp.parse_operand(fm.group(2) if fm else part)))
+            return VStruct(m.group(1) if m else "closure", caps, self.new_vid())
         if k == "adt":
             return self.aggregate(frame, rv, dest_ty)
         raise Unsupported("rvalue " + k)
@@ -1171,6 +1202,22 @@ class Executor:
             return self.run_function(f, args, depth + 1)
         # 4. havoc
         return self.havoc(ncallee, args, ret_ty)
+
+    def call_closure(self, clo, args, depth=3):
+        """run the MIR of a closure value (VStruct whose type is its `{closure@..}` location)"""
+        cv = clo
+        if isinstance(cv, VRef):
+            cv = self.read(cv.root, cv.path)
+        f = self.P.closures.get(getattr(cv, "ty", None))
+        if f is None:
+            return None
+        # first parameter: the closure itself (by value, & or &mut according to its Fn kind)
+        pty = f.params[0][1].strip()
+        if pty.startswith("&"):
+            self_arg = clo if isinstance(clo, VRef) else VRef(self.heap(cv, "closure"), (), "mut" in pty[:5])
+        else:
+            self_arg = cv
+        return self.run_function(f, [self_arg] + list(args), depth)
 
     def havoc(self, name, args, ret_ty, extra=None):
         self.used["havocked"].add(name)
